@@ -110,6 +110,8 @@ OPS = {
     "to_polycollection": lambda g: g.to_polycollection(),
     "to_geodataframe": lambda g: g.to_geodataframe(),
     "to_linecollection": lambda g: g.to_linecollection(),
+    "to_polycollection_P2": lambda g: g.to_polycollection(projection=_P2()),
+    "to_geodataframe_P2": lambda g: g.to_geodataframe(projection=_P2(), periodic_elements="ignore"),
     "ball_tree_faces": lambda g: g.get_ball_tree("face centers")._current_tree(),
     "kd_tree_nodes": lambda g: g.get_kd_tree("nodes")._current_tree(),
     "node_lonlat": lambda g: (g.node_lon, g.node_lat),
@@ -118,6 +120,10 @@ OPS = {
     # exactly like the exported dataset, which the property allows); only the history-independent part is observed here
     "sizes": lambda g: (g.n_node, g.n_face, g.n_max_face_nodes),
 }
+def _P2():
+    return stubs.Projection("P2", 90.0)
+
+
 OBSERVE = [k for k in OPS]
 FUNCS = ["Grid.<every lazily derived attribute>", "Grid.compute_face_areas", "Grid.calculate_total_face_area", "Grid.to_xarray", "Grid.isel", "slice._slice_face_indices",
          "slice._slice_node_indices", "Grid.to_polycollection", "Grid.to_geodataframe", "Grid.to_linecollection", "Grid.get_ball_tree", "Grid.get_kd_tree",
@@ -129,10 +135,9 @@ def make(oid, op1, cross, tiers=("quick", "thorough")):
         ctx.const("op1", op1); ctx.const("cross_grid", cross)
         lon = [z3.Real(f"lon_{i}") for i in range(N_NODE)]
         lat = [z3.Real(f"lat_{i}") for i in range(N_NODE)]
-        for i, v in enumerate(lon):
-            ctx.solver.add(v >= -170 + 50 * i, v <= -170 + 50 * i + 40)           # faces stay clear of the antimeridian
-        for v in lat:
-            ctx.solver.add(v >= -80, v <= 80)
+        BASE = [(0, 0), (10, 0), (10, 10), (0, 10), (20, 5), (15, 15)]            # a sane planar layout, each node free in a 4x4 degree box
+        for i, (bx, by) in enumerate(BASE):
+            ctx.solver.add(lon[i] >= bx - 2, lon[i] <= bx + 2, lat[i] >= by - 2, lat[i] <= by + 2)
         ctx.eng.declare("lon", lon); ctx.eng.declare("lat", lat)
         op2 = ctx.enum("op2", OBSERVE)
         return lon, lat, op2
@@ -237,6 +242,9 @@ def make(oid, op1, cross, tiers=("quick", "thorough")):
         ROPS["to_polycollection"] = lambda gr: [np.asarray(p.vertices) for p in gr.to_polycollection().get_paths()]
         ROPS["to_linecollection"] = lambda gr: [np.asarray(s) for s in gr.to_linecollection().get_segments()]
         ROPS["to_geodataframe"] = lambda gr: len(gr.to_geodataframe())
+        import cartopy.crs as rccrs
+        ROPS["to_polycollection_P2"] = lambda gr: [np.asarray(p.vertices) for p in gr.to_polycollection(projection=rccrs.Robinson(central_longitude=90)).get_paths()]
+        ROPS["to_geodataframe_P2"] = lambda gr: len(gr.to_geodataframe(projection=rccrs.Robinson(central_longitude=90), periodic_elements="ignore"))
         try:
             if cross:
                 ROPS[op1](C.real_grid(ROWS_B, *C.default_lonlat(N_NODE_B)))
@@ -294,7 +302,7 @@ def stubs_list():
 
 def obligations(tier):
     quick_ops = ["edge_node_connectivity", "face_edge_connectivity", "edge_face_connectivity", "face_lonlat", "edge_xyz", "face_areas", "compute_face_areas_g8",
-                 "to_xarray_ugrid", "isel_face", "isel_node", "to_polycollection", "to_geodataframe", "to_linecollection", "ball_tree_faces", "kd_tree_nodes",
+                 "to_xarray_ugrid", "isel_face", "isel_node", "to_polycollection", "to_geodataframe", "to_linecollection", "to_polycollection_P2", "to_geodataframe_P2", "ball_tree_faces", "kd_tree_nodes",
                  "edge_face_distances", "node_face_connectivity", "face_face_connectivity", "total_area_t1", "hole_edge_indices"]
     obs = [make(f"C08.after.{op}", op, False) for op in quick_ops]
     obs += [make(f"C08.cross.{op}", op, True) for op in ("edge_node_connectivity", "to_xarray_ugrid", "face_areas", "to_polycollection", "isel_face", "ball_tree_faces")]
